@@ -197,6 +197,7 @@ type remote struct {
 	fastSet     map[uint32]bool
 	outstanding []rc.Msg // requests received from storrent, not yet answered/rejected/cancelled
 	grace       bool     // permissions were revoked while frames could still be in flight
+	resolvedStalled []rc.Msg // requests we answered/rejected while our inbound side was stalled: a Cancel emitted earlier may still arrive
 	gotBitfield, gotOther bool
 	sentExt0    bool
 	// C16 monitor: what we asked of storrent
@@ -752,6 +753,7 @@ func (r *remote) process() {
 	}
 	if !stalled && !r.pendingOut() {
 		r.grace = false
+		r.resolvedStalled = nil
 	}
 }
 
@@ -838,10 +840,21 @@ func (r *remote) onFrame(m rc.Msg, raw []byte) {
 		if r.choking && !r.fastSet[m.Index] && !r.grace {
 			w.problem("C11", "C11/request-while-choked", "Request %s sent to remote %d while choked (piece not allowed-fast)", key, r.idx)
 		}
-		if r.findOutstanding(m.Index, m.Begin, m.Length) >= 0 {
-			w.problem("C11", "C11/request-duplicate", "Request %s sent to remote %d while the same request is outstanding", key, r.idx)
+		if k := r.findOutstanding(m.Index, m.Begin, m.Length); k >= 0 {
+			if r.grace {
+				// the earlier copy was emitted before a choke / advertisement
+				// change that we sent while stalled, and was implicitly dropped
+				r.outstanding = append(r.outstanding[:k], r.outstanding[k+1:]...)
+			} else {
+				w.problem("C11", "C11/request-duplicate", "Request %s sent to remote %d while the same request is outstanding", key, r.idx)
+			}
 		}
-		r.outstanding = append(r.outstanding, m)
+		if r.grace && r.choking && !r.cfg.Fast {
+			// emitted before storrent learnt of the choke we sent while
+			// stalled: implicitly discarded (BEP 3), not outstanding
+		} else {
+			r.outstanding = append(r.outstanding, m)
+		}
 		limit := r.cfg.ReqQ
 		if limit == 0 {
 			limit = 250
@@ -855,7 +868,15 @@ func (r *remote) onFrame(m rc.Msg, raw []byte) {
 	case rc.Cancel:
 		k := r.findOutstanding(m.Index, m.Begin, m.Length)
 		if k < 0 {
-			if !r.grace {
+			tolerated := false
+			for j, q := range r.resolvedStalled {
+				if q.Index == m.Index && q.Begin == m.Begin && q.Length == m.Length {
+					r.resolvedStalled = append(r.resolvedStalled[:j], r.resolvedStalled[j+1:]...)
+					tolerated = true
+					break
+				}
+			}
+			if !r.grace && !tolerated {
 				w.problem("C11", "C11/cancel-not-outstanding", "Cancel %d/%d/%d sent to remote %d does not refer to an outstanding request", m.Index, m.Begin, m.Length, r.idx)
 			}
 		} else {
@@ -1098,6 +1119,9 @@ func (w *World) apply(tr string) bool {
 			return false
 		}
 		r.send(m)
+		if r.stalled {
+			r.resolvedStalled = append(r.resolvedStalled, o)
+		}
 		if consumed {
 			r.outstanding = append(r.outstanding[:k], r.outstanding[k+1:]...)
 		} else if j := r.findOutstanding(m.Index, m.Begin, o.Length); j >= 0 {
@@ -1128,6 +1152,9 @@ func (w *World) apply(tr string) bool {
 		}
 		o := r.outstanding[k]
 		r.send(rc.Msg{Kind: rc.Reject, Index: o.Index, Begin: o.Begin, Length: o.Length})
+		if r.stalled {
+			r.resolvedStalled = append(r.resolvedStalled, o)
+		}
 		r.outstanding = append(r.outstanding[:k], r.outstanding[k+1:]...)
 	case "close":
 		if r.closed {
